@@ -160,9 +160,6 @@ def ambiguous(u):
 
     out += [{"vals": [1, 2 ** 40]}, {"vals": _array.array("q", [1, 2 ** 40])}, {"vals": [1] * 100 + [2 ** 40]}, {"vals": _array.array("q", [1, 2])}, {"vals": [1] * 300},
             {"id": 7, "name": "x"}, {"id": 7, "note2": "x", "name": "y"}, {"id": 7, "title": "t"}, {"id": 7}]
-    import collections as _collections
-
-    Hint = _collections.namedtuple("Hint", ["branch", "value"])  # a tuple subclass is a tuple
     out += [Hint("A", {"x": 1}), Hint("E", "B"), Hint("int", 7), Hint("Nope", 1), Hint("map", {"k": 1})]
     # map data whose keys merely LOOK like the record hint
     out += [{"-type": 1, "k": 2}, {"-type": 5}, ("map", {"-type": 3})]
@@ -201,6 +198,7 @@ def write(fa, schema, d, disable):
 
 
 _CR_COUNT = {}
+Hint = __import__("collections").namedtuple("Hint", ["branch", "value"])  # a tuple subclass is a tuple
 
 
 def check(fa, res, raw, parsed, node, defs, d, disable, seen):
